@@ -662,27 +662,15 @@ func r04_6(c *Ctx, r *Report) {
 	if fn == nil {
 		return
 	}
-	// the returned n is a phi of the three arms
-	var ret *ssa.Return
-	for _, b := range fn.Blocks {
-		for _, ins := range b.Instrs {
-			if x, ok := ins.(*ssa.Return); ok {
-				ret = x
-			}
-		}
-	}
+	// the result arms: every returned value, with merge phis (not loop headers) expanded
 	construct := "SolarUtil.GetDaysBetween arms are mirror images"
-	if ret == nil || len(ret.Results) != 1 {
-		r.bad(rule, construct, c.fnPos(fn), "no single return found (undecided = fail)")
-		return
-	}
-	phi, ok := ret.Results[0].(*ssa.Phi)
-	if !ok || len(phi.Edges) != 3 {
-		r.bad(rule, construct, c.fnPos(fn), "the result is not a merge of three arms (same year / first later / first earlier) (undecided = fail)")
+	arms := resultArms(fn)
+	if len(arms) != 3 {
+		r.bad(rule, construct, c.fnPos(fn), fmt.Sprintf("the result has %d arms, not the three (same year / first later / first earlier) (undecided = fail)", len(arms)))
 		return
 	}
 	var neg, pos, same ssa.Value
-	for _, e := range phi.Edges {
+	for _, e := range arms {
 		if u, ok := e.(*ssa.UnOp); ok && u.Op == token.SUB {
 			neg = u.X
 		} else if bo, ok := e.(*ssa.BinOp); ok && bo.Op == token.SUB {
@@ -702,12 +690,49 @@ func r04_6(c *Ctx, r *Report) {
 	if a == b {
 		r.ok(rule, construct, c.fnPos(fn), "negated arm with a and b exchanged equals the positive arm: "+short(b))
 	} else {
-		r.bad(rule, construct, c.pos(phi.Pos()), "the arm for ay > by (with a and b exchanged) is "+short(a)+" but the arm for ay < by is "+short(b)+": Subtract is not antisymmetric across years of different length")
+		r.bad(rule, construct, c.pos(neg.Pos()), "the arm for ay > by (with a and b exchanged) is "+short(a)+" but the arm for ay < by is "+short(b)+": Subtract is not antisymmetric across years of different length")
 	}
 	// same-year arm: DIY(b) - DIY(a)
 	s := symExpr(c, same, map[string]string{}, map[ssa.Value]string{}, 0)
 	want := "(SolarUtil.GetDaysInYear(by,bm,bd) - SolarUtil.GetDaysInYear(ay,am,ad))"
 	r.check(s == want, rule, "SolarUtil.GetDaysBetween same-year arm", c.fnPos(fn), "same-year arm is "+short(s))
+}
+
+// resultArms lists the values a function can return: the operands of its Return instructions
+// with merge phis expanded (a phi at a loop header is an arm of its own).
+func resultArms(fn *ssa.Function) []ssa.Value {
+	var out []ssa.Value
+	seen := map[ssa.Value]bool{}
+	var add func(v ssa.Value, depth int)
+	add = func(v ssa.Value, depth int) {
+		if seen[v] {
+			return
+		}
+		seen[v] = true
+		if phi, ok := v.(*ssa.Phi); ok && depth < 8 {
+			header := false
+			for _, p := range phi.Block().Preds {
+				if phi.Block().Dominates(p) {
+					header = true
+				}
+			}
+			if !header {
+				for _, e := range phi.Edges {
+					add(e, depth+1)
+				}
+				return
+			}
+		}
+		out = append(out, v)
+	}
+	for _, b := range fn.Blocks {
+		for _, ins := range b.Instrs {
+			if ret, ok := ins.(*ssa.Return); ok && len(ret.Results) == 1 {
+				add(ret.Results[0], 0)
+			}
+		}
+	}
+	return out
 }
 
 // ---------- R04.7 clamp consistency ----------
